@@ -241,47 +241,49 @@ Definition wc_propfail (c : web_case) : bool :=
   let '(WC routes users cfg0 steps) := c in
   steps_fail routes users [] [] steps.
 
-(* coverage: which model branches the requests of a case reached (the tag of a case is that of
-   its last request; the harness additionally reports the per-request histogram in meta.json) *)
-Definition req_tag (routes : list route) (st : state Z) (q : request) : Z :=
-  if harden_blocks (q_method q) (q_origin q) (q_site q) then 1
+(* coverage: which model branches the requests of a case reached.  The tag of a history is the
+   bit set of the branches of its requests (bit numbers below); the driver decodes it into a
+   per-branch count of histories. *)
+Definition req_branch (routes : list route) (st : state Z) (q : request) : Z :=
+  if harden_blocks (q_method q) (q_origin q) (q_site q) then 0
   else match mux routes (q_method q) (q_path q) with
-       | MNotFound => 2
-       | MNoMethod => 3
+       | MNotFound => 1
+       | MNoMethod => 2
        | MFound r =>
-           let k := match kind_of r with HLogin => 10 | HLogout => 20 | HChange => 30 | HConfigPatch => 40 | HOther => 50 end in
+           let k := match kind_of r with HLogin => 0 | HLogout => 1 | HChange => 2 | HConfigPatch => 3 | HOther => 4 end in
+           3 + 5 * k +
            match q_cookie q with
-           | None => k + 1
+           | None => 0
            | Some sid =>
                match s_sess Z st sid with
-               | None => k + 2
+               | None => 1
                | Some (_, e) =>
-                   if e <=? s_now Z st then k + 3
-                   else if e - s_now Z st <=? extend_threshold then k + 4 else k + 5
+                   if e <=? s_now Z st then 2
+                   else if e - s_now Z st <=? extend_threshold then 3 else 4
                end
            end
        end.
 
-Fixpoint wc_last_tag (routes : list route) (st : state Z) (steps : list wstep) (acc : Z) : Z :=
+Fixpoint wc_branches (routes : list route) (st : state Z) (steps : list wstep) (acc : Z) : Z :=
   match steps with
   | [] => acc
   | WReq now q o :: r =>
       let st1 := advance_to st now in
       let '(_, es) := api_step Z vfy mkh routes st1 q in
-      wc_last_tag routes (apply_effects Z st1 es) r (req_tag routes st1 q)
+      wc_branches routes (apply_effects Z st1 es) r (Z.lor acc (Z.shiftl 1 (req_branch routes st1 q)))
   | WGC now :: r =>
       let st1 := advance_to st now in
-      wc_last_tag routes {| s_now := s_now Z st1; s_sess := sess_gc (s_now Z st1) (s_sess Z st1);
-                            s_users := s_users Z st1; s_cfg := s_cfg Z st1 |} r acc
+      wc_branches routes {| s_now := s_now Z st1; s_sess := sess_gc (s_now Z st1) (s_sess Z st1);
+                            s_users := s_users Z st1; s_cfg := s_cfg Z st1 |} r (Z.lor acc (Z.shiftl 1 28))
   | WSetHash uid tok :: r =>
-      wc_last_tag routes {| s_now := s_now Z st; s_sess := s_sess Z st;
+      wc_branches routes {| s_now := s_now Z st; s_sess := s_sess Z st;
                             s_users := set_hash Z (s_users Z st) uid (if tok <? 0 then None else Some tok);
-                            s_cfg := s_cfg Z st |} r acc
+                            s_cfg := s_cfg Z st |} r (Z.lor acc (Z.shiftl 1 29))
   end.
 
 Definition wc_tag (c : web_case) : Z :=
   let '(WC routes users cfg0 steps) := c in
-  wc_last_tag routes {| s_now := first_now steps; s_sess := fun _ => None; s_users := map mkuser users; s_cfg := cfg0 |} steps 0.
+  wc_branches routes {| s_now := first_now steps; s_sess := fun _ => None; s_users := map mkuser users; s_cfg := cfg0 |} steps 0.
 
 Definition check_web (cases : list web_case) : report :=
   mk_report wc_mismatch wc_propfail wc_tag cases.
